@@ -21,7 +21,12 @@ use serde::de::{DeserializeSeed, MapAccess, SeqAccess};
 
 use super::{Config, SchemaAwareDeserializer};
 use crate::schema::MapSchema;
-use crate::{Error, Schema, schema::ArraySchema, util::zag_i64};
+use crate::{
+    Error, Schema,
+    error::Details,
+    schema::ArraySchema,
+    util::{safe_len, zag_i64},
+};
 
 /// Deserialize sequences from an Avro array.
 pub struct BlockDeserializer<'s, 'r, R: Read, S: Borrow<Schema>> {
@@ -30,6 +35,8 @@ pub struct BlockDeserializer<'s, 'r, R: Read, S: Borrow<Schema>> {
     config: Config<'s, S>,
     /// Track where we are in reading the array
     remaining: Option<u64>,
+    /// The number of items declared by all block headers read so far
+    total: u64,
 }
 
 impl<'s, 'r, R: Read, S: Borrow<Schema>> BlockDeserializer<'s, 'r, R, S> {
@@ -43,12 +50,14 @@ impl<'s, 'r, R: Read, S: Borrow<Schema>> BlockDeserializer<'s, 'r, R, S> {
         } else {
             &schema.items
         };
-        let remaining = Self::read_block_header(reader)?;
+        let mut total = 0;
+        let remaining = Self::read_block_header(reader, &mut total)?;
         Ok(Self {
             reader,
             schema,
             config,
             remaining,
+            total,
         })
     }
 
@@ -62,16 +71,18 @@ impl<'s, 'r, R: Read, S: Borrow<Schema>> BlockDeserializer<'s, 'r, R, S> {
         } else {
             &schema.types
         };
-        let remaining = Self::read_block_header(reader)?;
+        let mut total = 0;
+        let remaining = Self::read_block_header(reader, &mut total)?;
         Ok(Self {
             reader,
             schema,
             config,
             remaining,
+            total,
         })
     }
 
-    fn read_block_header(reader: &mut R) -> Result<Option<u64>, Error> {
+    fn read_block_header(reader: &mut R, total: &mut u64) -> Result<Option<u64>, Error> {
         let remaining = zag_i64(reader)?;
         if remaining < 0 {
             // If the block size is negative the next number is the size of the block in bytes
@@ -81,7 +92,14 @@ impl<'s, 'r, R: Read, S: Borrow<Schema>> BlockDeserializer<'s, 'r, R, S> {
             // If the block size is zero the array/map is finished
             Ok(None)
         } else {
-            Ok(Some(remaining.unsigned_abs()))
+            let remaining = remaining.unsigned_abs();
+            // The count is taken from the (untrusted) data and items can be zero bytes wide, so
+            // bound the cumulative count like the length of any other collection before iterating
+            *total = total
+                .checked_add(remaining)
+                .ok_or(Details::IntegerOverflow)?;
+            safe_len(usize::try_from(*total).map_err(|e| Details::ConvertU64ToUsize(e, *total))?)?;
+            Ok(Some(remaining))
         }
     }
 }
@@ -102,7 +120,7 @@ impl<'de, 's, 'r, R: Read, S: Borrow<Schema>> SeqAccess<'de> for BlockDeserializ
             )?)?;
             remaining -= 1;
             if remaining == 0 {
-                self.remaining = Self::read_block_header(self.reader)?;
+                self.remaining = Self::read_block_header(self.reader, &mut self.total)?;
             } else {
                 self.remaining = Some(remaining);
             }
@@ -153,7 +171,7 @@ impl<'de, 's, 'r, R: Read, S: Borrow<Schema>> MapAccess<'de> for BlockDeserializ
 
         remaining -= 1;
         if remaining == 0 {
-            self.remaining = Self::read_block_header(self.reader)?;
+            self.remaining = Self::read_block_header(self.reader, &mut self.total)?;
         } else {
             self.remaining = Some(remaining);
         }
@@ -183,7 +201,7 @@ impl<'de, 's, 'r, R: Read, S: Borrow<Schema>> MapAccess<'de> for BlockDeserializ
 
             remaining -= 1;
             if remaining == 0 {
-                self.remaining = Self::read_block_header(self.reader)?;
+                self.remaining = Self::read_block_header(self.reader, &mut self.total)?;
             } else {
                 self.remaining = Some(remaining);
             }
